@@ -54,6 +54,7 @@ def _case(draw):
         "min_size": draw(st.integers(1, 8)),
         "n_iterations": draw(st.integers(0, 3)),
         "cover_flag": draw(st.booleans()),
+        "nul_plates": draw(st.integers(0, 5)) == 0,
         "mixed_layout": draw(st.booleans()),
         "pairwise_screen": draw(retro.pairwise_screen()) if draw(st.booleans()) else None,
         # a small screen of its own for the combination filter (treatments that occur only in single-agent rows are frequent here)
@@ -168,6 +169,10 @@ def check_case(case):
     from batchie.data import filter_dataset_to_treatments_that_appear_in_at_least_one_combo
 
     sc = case["screen"]
+    if case.get("nul_plates"):
+        # plate labels that agree up to an embedded NUL character: different labels (nothing here is written to an archive)
+        ren_ = {p_: "batch\x00" + p_ for p_ in {r["p"] for r in sc["rows"]}}
+        sc = dict(sc, rows=[dict(r, p=ren_[r["p"]]) for r in sc["rows"]], observed=sorted(ren_[p_] for p_ in sc["observed"]))
     if case["mixed_layout"]:
         # arbitrary (multi-sample) plates for the operators that do not require single-sample plates
         sc_any = dict(sc, rows=[dict(r, p=r["p"].split("_")[-1]) for r in sc["rows"]])
